@@ -512,6 +512,12 @@ class DigestAuthMiddleware:
                 # Free the connection of the challenge response, or the retry
                 # needs a second one while this one is still acquired.
                 response.release()
+                # The retry carries the cookies the challenge has just set
+                # (the session is commonly opened together with the 401).
+                fresh = request.session.cookie_jar.filter_cookies(request.url)
+                for name in fresh.keys() - response.cookies.keys():
+                    del fresh[name]
+                request._update_cookies(fresh)
 
         # At this point, response is guaranteed to be defined
         assert response is not None
